@@ -5,24 +5,20 @@
 //!   blob excess <parent_excess> <parent_used> <target>       -> <u64>
 //!   blob new <excess> <is_prague>                            -> <excess> <price> <get_excess> <get_price>
 //!   blob parent <parent_excess> <parent_used> <target> <is_prague> -> <excess> <price>
-//! `too-long`: numerator / denominator > 20000 (the loop of `fake_exponential` would run for a very
-//! long time in the release profile); the Lean driver applies the same rule.
+//! No line is refused: the repaired `fake_exponential` saturates, so its loop ends after a few hundred
+//! iterations for every argument (the former `too-long` guard is gone).
 use crate::*;
 use revm::primitives::{
     calc_blob_gasprice, calc_excess_blob_gas, fake_exponential, BlobExcessGasAndPrice, BlockEnv,
     BLOB_BASE_FEE_UPDATE_FRACTION_CANCUN, BLOB_BASE_FEE_UPDATE_FRACTION_ELECTRA,
 };
 
-const RATIO_LIMIT: u64 = 20000;
-
-fn too_long(n: u64, d: u64) -> bool {
-    d != 0 && n / d > RATIO_LIMIT
-}
 fn frac(p: bool) -> u64 {
     if p { BLOB_BASE_FEE_UPDATE_FRACTION_ELECTRA } else { BLOB_BASE_FEE_UPDATE_FRACTION_CANCUN }
 }
 
-/// classification for the evidence only: does the loop overflow an intermediate `u128`?
+/// classification for the evidence only: would a 128-bit intermediate overflow (the region where the
+/// unrepaired code wrapped)?
 fn overflows(f: u64, n: u64, d: u64) -> bool {
     if d == 0 { return false; }
     let (n, d) = (n as u128, d as u128);
@@ -54,12 +50,10 @@ pub fn exec_line(line: &str) -> String {
     match (t[1], t.len()) {
         ("fakeexp", 5) => {
             let (Some(f), Some(n), Some(d)) = (u(t[2]), u(t[3]), u(t[4])) else { return "bad-op".into() };
-            if too_long(n, d) { return "too-long".into(); }
             guarded(move || fake_exponential(f, n, d).to_string())
         }
         ("price", 4) => {
             let (Some(e), Some(p)) = (u(t[2]), b(t[3])) else { return "bad-op".into() };
-            if too_long(e, frac(p)) { return "too-long".into(); }
             guarded(move || calc_blob_gasprice(e, p).to_string())
         }
         ("excess", 5) => {
@@ -68,7 +62,6 @@ pub fn exec_line(line: &str) -> String {
         }
         ("new", 4) => {
             let (Some(e), Some(p)) = (u(t[2]), b(t[3])) else { return "bad-op".into() };
-            if too_long(e, frac(p)) { return "too-long".into(); }
             guarded(move || {
                 let v = BlobExcessGasAndPrice::new(e, p);
                 let mut be = BlockEnv::default();
@@ -86,12 +79,6 @@ pub fn exec_line(line: &str) -> String {
             let (Some(a), Some(bb), Some(c), Some(p)) = (u(t[2]), u(t[3]), u(t[4]), b(t[5])) else {
                 return "bad-op".into();
             };
-            // the excess is computed by the real function; the guard needs its value
-            let e = match std::panic::catch_unwind(move || calc_excess_blob_gas(a, bb, c)) {
-                Ok(e) => e,
-                Err(_) => return "panic".into(),
-            };
-            if too_long(e, frac(p)) { return "too-long".into(); }
             guarded(move || {
                 let v = BlobExcessGasAndPrice::from_parent_and_target(a, bb, c, p);
                 format!("{} {}", v.excess_blob_gas, v.blob_gasprice)
@@ -183,6 +170,12 @@ pub fn gen(seed: u64, n: usize) -> Vec<String> {
                 let (a, b, t) = (rnd_u64(&mut rng), rnd_u64(&mut rng), rnd_u64(&mut rng));
                 lines.push(format!("blob excess {a} {b} {t}"));
             }
+            8 if rng.chance(1, 2) => {
+                // any u64 excess (mostly saturating)
+                let e = rnd_u64(&mut rng);
+                let p = rng.below(2);
+                if rng.chance(1, 2) { lines.push(format!("blob price {e} {p}")); } else { lines.push(format!("blob new {e} {p}")); }
+            }
             8 => {
                 // realistic parents: multiples of GAS_PER_BLOB around the target
                 let g = 131072u64;
@@ -219,21 +212,20 @@ pub fn run(seed: u64, n: usize, replay: Option<Vec<String>>, out: &mut Out) {
         let pu = |i: usize| t.get(i).and_then(|s| s.parse::<u64>().ok());
         match (op.as_str(), r.as_str()) {
             (_, "panic") => out.count("reply:panic"),
-            (_, "too-long") => out.count("reply:too-long"),
             (_, "bad-op") => out.count("reply:bad-op"),
             ("fakeexp", _) => {
                 if let (Some(f), Some(n), Some(d)) = (pu(2), pu(3), pu(4)) {
-                    out.count(if overflows(f, n, d) { "fakeexp:intermediate-overflow(wrapped)" } else { "fakeexp:exact-domain" });
+                    out.count(if overflows(f, n, d) { if r == u128::MAX.to_string() { "fakeexp:saturated" } else { "fakeexp:exact,needs>128-bit-intermediate" } } else { "fakeexp:exact,128-bit-intermediates" });
                 }
             }
             ("price", _) | ("new", _) => {
                 if let (Some(e), Some(p)) = (pu(2), pu(3)) {
-                    out.count(if overflows(1, e, frac(p == 1)) { "price:intermediate-overflow(wrapped)" } else { "price:exact-domain" });
+                    out.count(if overflows(1, e, frac(p == 1)) { if r.contains(&u128::MAX.to_string()) { "price:saturated" } else { "price:exact,needs>128-bit-intermediate" } } else { "price:exact,128-bit-intermediates" });
                 }
             }
             ("excess", _) | ("parent", _) => {
                 if let (Some(a), Some(b)) = (pu(2), pu(3)) {
-                    out.count(if a.checked_add(b).is_none() { "excess:sum-overflow(wrapped)" } else { "excess:exact-domain" });
+                    out.count(if a.checked_add(b).is_none() { "excess:sum>=2^64" } else { "excess:sum<2^64" });
                 }
             }
             _ => {}
